@@ -815,6 +815,15 @@ func (m *repoManager) loadMetadata() error {
 		}
 	}
 
+	// Same for repo IDs: a stored counter at or below a stored repo ID would hand that ID out again.
+	for id := range m.repoToUUID {
+		if id >= m.repoID {
+			dvid.TimeErrorf("Found repo ID %d >= current new repo ID %d.  Correcting metadata...\n", id, m.repoID)
+			m.repoID = id + 1
+			saveIDs = true
+		}
+	}
+
 	if saveIDs {
 		return m.putNewIDs()
 	}
